@@ -129,7 +129,19 @@ pub fn run_c19tool(ctx: &mut Ctx, from: u64, to: u64) {
         let csv = scratch(ctx, "dict.csv");
         write_zst(&m_in, &bytes);
         let _ = std::fs::remove_file(&m_out);
-        let _ = std::fs::remove_file(&csv);
+        // the dump path is reused from case to case (an older, usually different-sized dump is already there);
+        // every third case starts from a long older file, every third from no file
+        match k % 3 {
+            0 => {
+                let _ = std::fs::remove_file(&csv);
+            }
+            1 => {
+                let old: String = (0..400).map(|i| format!("old{i},1 2 3 4 5,stale entry\n")).collect();
+                std::fs::write(&csv, format!("word,weights,comment\n{old}")).unwrap();
+                ctx.count("dumps_over_a_longer_existing_file", 1);
+            }
+            _ => {}
+        }
         let detail = |extra: Vec<(&str, J)>| {
             let mut kv = vec![
                 ("dictionary", J::A(case.model.dict_model.iter().map(|d| J::obj(vec![("word", J::s(&d.word)), ("weights", J::ints(&d.weights)), ("comment", J::s(&d.comment))])).collect())),
@@ -475,7 +487,8 @@ pub fn run_c20p(ctx: &mut Ctx, from: u64, to: u64) {
                     let ok = if line.is_empty() || line.contains('\0') {
                         o.is_empty()
                     } else {
-                        match fmt::parse_tokenized(o) {
+                        // (a NUL can only stem from a tag name of the model: it is not part of the text under test)
+                        match fmt::parse_tokenized(&o.replace('\0', "\u{fffd}")) {
                             Ok(rs) => rs.text() == *line,
                             Err(_) => false,
                         }
@@ -547,7 +560,9 @@ pub fn run_c20e(ctx: &mut Ctx, from: u64, to: u64) {
                     for j in 0..ref_n_tags {
                         let cand = tm.and_then(|tm| tm.tags.get(j)).and_then(|c| if c.is_empty() { None } else { Some(c[rng.below(c.len())].clone()) });
                         ts.push(match cand {
-                            Some(c) if rng.chance(3, 4) => Some(c),
+                            // (a NUL inside a tag cannot be written into a corpus line: the text formats exclude NUL)
+                            // (nor can an empty tag: an empty slot denotes an absent tag)
+                            Some(c) if rng.chance(3, 4) && !c.contains('\0') && !c.is_empty() => Some(c),
                             _ if rng.chance(1, 3) => Some("ZZ".to_string()),
                             _ => None,
                         });
@@ -950,6 +965,35 @@ pub fn run_c07cli(ctx: &mut Ctx, from: u64, to: u64) {
                 );
             } else if r.signal.is_some() {
                 ctx.violation(&format!("C07:tool_killed_by_signal_on_failing_output:{tool}"), J::obj(vec![("args", J::strs(&args)), ("run", J::s(r.describe()))]));
+            }
+        }
+        // a model file written by a tool and then cut short by a few bytes must be refused by the tools
+        if k % 2 == 0 {
+            let good = scratch(ctx, "full-good.zst");
+            let _ = std::fs::remove_file(&good);
+            let w = run_bin(ctx, "manipulate_model", &["--model-in".into(), m_in.clone(), "--model-out".into(), good.clone()], b"").unwrap();
+            ctx.eval(1);
+            if w.code != Some(0) {
+                ctx.violation("C07:tool_cannot_rewrite_a_valid_model", J::obj(vec![("run", J::s(w.describe()))]));
+            } else if let Ok(z) = std::fs::read(&good) {
+                let cuts: Vec<usize> = [1usize, 2, 3, 4, 5, 8, z.len() / 2].iter().copied().filter(|&c| c < z.len()).collect();
+                for cut in cuts {
+                    let tpath = scratch(ctx, "full-trunc.zst");
+                    std::fs::write(&tpath, &z[..z.len() - cut]).unwrap();
+                    let sink = scratch(ctx, "full-sink.zst");
+                    let r1 = run_bin(ctx, "manipulate_model", &["--model-in".into(), tpath.clone(), "--model-out".into(), sink.clone()], b"").unwrap();
+                    let r2 = run_bin(ctx, "predict", &["--model".into(), tpath.clone()], "a\n".as_bytes()).unwrap();
+                    ctx.eval(2);
+                    ctx.count("truncated_tool_written_files_offered_to_tools", 1);
+                    for (tool, r) in [("manipulate_model", &r1), ("predict", &r2)] {
+                        if r.code == Some(0) {
+                            ctx.violation(
+                                &format!("C07:tool_accepts_model_file_cut_short:{tool}"),
+                                J::obj(vec![("bytes_removed_from_end", J::i(cut)), ("file_bytes", J::i(z.len())), ("run", J::s(r.describe()))]),
+                            );
+                        }
+                    }
+                }
             }
         }
         ctx.nontrivial(fnv(&case.model.to_bytes()));
